@@ -279,10 +279,16 @@ class Interp:
             # normal path only; a throw inside is caught -> handler modelled as boolean fork
             try:
                 self.exec(s.body, env)
-            except _Throw:
-                for h in s.handlers:
-                    self.exec(h.body, env)
-                    break
+            except _Throw as thrown:
+                for i, h in enumerate(s.handlers):
+                    decl = h.decl.replace(" ", "")
+                    last = i == len(s.handlers) - 1
+                    if decl == "..." or self._atom(f"caught-by:{decl}"):
+                        self.out.events.append(("caught", decl))
+                        self._caught = thrown
+                        self.exec(h.body, env)
+                        return
+                raise
             return
         if isinstance(s, (C.Empty, C.Other, C.Case)):
             return
@@ -803,6 +809,7 @@ class Expect:
     calls: Optional[List[Tuple[str, Tuple[Any, ...]]]] = None  # exact ordered list of role calls (None = unchecked)
     ret: Any = "unchecked"
     dont_care: Sequence[str] = ()  # roles whose final value is not constrained in this row
+    stores_on_throw: bool = False  # compare stores / calls even when the row throws
 
 
 @dataclass
@@ -965,7 +972,8 @@ def compare(out: Outcome, exp: Expect, ranks: Dict[str, int], interp: Interp) ->
             diff.append(f"spec throws{'' if exp.throws is True else ' ' + str(exp.throws)}, code does not")
         elif exp.throws is not True and not str(out.throws).endswith(str(exp.throws)):
             diff.append(f"spec throws {exp.throws}, code throws {out.throws}")
-        return diff
+        if not exp.stores_on_throw or diff:
+            return diff
     elif out.throws:
         diff.append(f"code throws {out.throws}, spec does not")
         return diff
@@ -995,16 +1003,17 @@ def compare(out: Outcome, exp: Expect, ranks: Dict[str, int], interp: Interp) ->
         if not _same(got, want):
             diff.append(f"{r.name}: spec final value {want_name}, code leaves {_holder_names(got, ranks, interp)}")
     if exp.calls is not None:
-        want_calls = [(n, tuple(_expected_value(a, ranks, interp) for a in args)) for n, args in exp.calls]
+        want_calls = [(n, None if tuple(args) == ("anyargs",) else tuple(_expected_value(a, ranks, interp) for a in args))
+                      for n, args in exp.calls]
         got_calls = out.calls
         ok = len(want_calls) == len(got_calls) and all(
-            wn == gn and len(wa) == len(ga) and all(_same(g, w) for g, w in zip(ga, wa))
+            wn == gn and (wa is None or (len(wa) == len(ga) and all(_same(g, w) for g, w in zip(ga, wa))))
             for (wn, wa), (gn, ga) in zip(want_calls, got_calls))
         if not ok:
             ws = "; ".join(f"{n}({','.join(str(a) for a in args)})" for n, args in exp.calls) or "none"
             gs = "; ".join(f"{n}({','.join(_holder_names(a, ranks, interp) for a in args)})" for n, args in got_calls) or "none"
             diff.append(f"calls: spec [{ws}], code [{gs}]")
-    if exp.ret != "unchecked":
+    if exp.ret != "unchecked" and not out.throws:
         want = _expected_value(exp.ret, ranks, interp) if exp.ret is not None else None
         if exp.ret is None:
             if out.ret is not None and out.returned and out.ret[0] != SYM:
